@@ -35,6 +35,10 @@ def make_Z(r, N, kind):
         z = np.full(N, 1.0 + 0j)
     else:
         z = mag * np.exp(1j * ph)
+    if kind == "zerotail":      # band-limited table (a short impedance file is padded with exact zeros)
+        z[int(r.uniform(0.02, 0.98) * (N // 2)):] = 0
+    elif kind == "sparse":
+        z[r.random(N) < 0.5] = 0
     z = z.astype(np.complex64)
     # boundary bin floor(N/2): C06's own statement does not say whether it belongs to "the half", but C07's does (the
     # wake side of the Parseval relation lacks "the zero-frequency and Nyquist terms"), and the anchored mechanism is
@@ -202,7 +206,7 @@ def cases(draw):
     def lg(lo, hi):
         return float(10 ** draw(st.floats(np.log10(lo), np.log10(hi))))
     return dict(n=n, buckets=buckets, spacing=spacing, N=N, nbuckets=nbuckets, dseed=draw(gen.seeds()),
-                zkind=draw(st.sampled_from(["complex", "complex", "complex", "smooth", "real", "const"])),
+                zkind=draw(st.sampled_from(["complex", "complex", "complex", "smooth", "real", "const", "zerotail", "sparse"])),
                 pkind=draw(st.sampled_from(["smooth", "impulse", "noise"])),
                 variant=draw(st.sampled_from(["none", "none", "neghalf", "linear", "shift"])),
                 prelude=draw(st.lists(st.sampled_from([["csr", 0.0], ["csr", 1e10], ["wake"], ["pad"]]), max_size=3)),
